@@ -50,6 +50,26 @@ fn b64_with(alpha: &[u8; 64], data: &[u8], pad: bool) -> String {
 pub fn b64url(data: &[u8]) -> String {
     b64_with(B64URL, data, false)
 }
+/// base64url text of `bytes` that is not the canonical encoding: the unused low bits of the last symbol
+/// are set (possible when the length is not a multiple of 3); decoders that follow RFC 4648 §3.5
+/// leniently accept it as the same bytes
+pub fn b64url_spare_bits_set(bytes: &[u8]) -> String {
+    let mut s = b64url(bytes).into_bytes();
+    let spare = match bytes.len() % 3 {
+        1 => 4,
+        2 => 2,
+        _ => 0,
+    };
+    if spare > 0 {
+        if let Some(last) = s.last_mut() {
+            if let Some(v) = B64URL.iter().position(|c| c == last) {
+                *last = B64URL[v | ((1 << spare) - 1)];
+            }
+        }
+    }
+    String::from_utf8(s).unwrap_or_default()
+}
+
 pub fn b64url_padded(data: &[u8]) -> String {
     b64_with(B64URL, data, true)
 }
